@@ -1,4 +1,4 @@
-use super::super::abstract_instruction_set::AbstractInstructionSet;
+use super::super::{abstract_instruction_set::AbstractInstructionSet, analyses::liveness_analysis};
 
 use crate::asm_lang::{
     virtual_register::ConstantRegister, JumpType, Op, OrganizationalOp, VirtualOp, VirtualRegister,
@@ -100,8 +100,24 @@ impl AbstractInstructionSet {
     ) -> AbstractInstructionSet {
         let mut new_ops = Vec::with_capacity(self.ops.len());
 
-        let mut ops = self.ops.iter().peekable();
-        while let Some(op) = ops.next() {
+        // Whether `$of` / `$err` are read before they are written again, after each op. The next
+        // op in the list is not necessarily the next one executed (it can be a label or a jump),
+        // so this is taken from the liveness analysis and not from the following op.
+        let reads_flags = self.ops.iter().any(|op| {
+            op.use_registers().iter().any(|reg| {
+                matches!(
+                    reg,
+                    VirtualRegister::Constant(ConstantRegister::Overflow | ConstantRegister::Error)
+                )
+            })
+        });
+        let live_out = if reads_flags {
+            liveness_analysis(&self.ops, false)
+        } else {
+            vec![]
+        };
+
+        for (idx, op) in self.ops.iter().enumerate() {
             let remove = match &op.opcode {
                 Either::Left(VirtualOp::NOOP) => true,
                 Either::Left(VirtualOp::MOVE(a, b)) => a == b,
@@ -114,15 +130,11 @@ impl AbstractInstructionSet {
 
             // We also need to be sure op is redundant regarding const registers.
             let remove = remove
-                && ops
-                    .peek()
-                    .map(|next_op| {
-                        op.def_const_registers()
-                            .intersection(&next_op.use_registers())
-                            .count()
-                            == 0
-                    })
-                    .unwrap_or(true);
+                && live_out.get(idx).is_none_or(|live| {
+                    op.def_const_registers()
+                        .iter()
+                        .all(|reg| !live.contains(*reg))
+                });
 
             if !remove {
                 log(&format!("keeping: {}\n", op));
